@@ -233,6 +233,7 @@ fn run_steps_sync(o: usize, id: u32, body: &[Step]) {
                 }
             }
             Step::AwaitGate(g) | Step::BlockOn(g) => gate_block_on(*g),
+            Step::AwaitAny(g, _) => gate_block_on(*g),
             Step::OpenGate(g) => gate_open(*g),
             Step::Nested(op) => {
                 w().cover.nested_calls += 1;
@@ -370,6 +371,41 @@ impl Future for BodyFut {
                             return Poll::Pending;
                         }
                     }
+                }
+                Step::AwaitAny(g1, g2) => {
+                    let (g1, g2) = (*g1, *g2);
+                    let mut f1 = GateFut { g: g1, key: this.key };
+                    let r1 = Pin::new(&mut f1).poll(cx);
+                    let r2 = if r1.is_pending() {
+                        let mut f2 = GateFut { g: g2, key: this.key };
+                        Pin::new(&mut f2).poll(cx)
+                    } else {
+                        Poll::Pending
+                    };
+                    if r1.is_pending() && r2.is_pending() {
+                        if (this.key & PIPE_ITEM_FLAG) == 0 {
+                            let r = &mut w().ops[this.key as usize];
+                            r.waiting_gate = Some(g1);
+                            r.waiting_gate_alt = Some(g2);
+                        }
+                        if !this.suspended_once {
+                            this.suspended_once = true;
+                            let pool = is_pool_task();
+                            let world = w();
+                            if pool {
+                                world.cover.suspended_on_pool += 1;
+                            } else {
+                                world.cover.suspended_on_caller += 1;
+                            }
+                        }
+                        return Poll::Pending;
+                    }
+                    if (this.key & PIPE_ITEM_FLAG) == 0 {
+                        let r = &mut w().ops[this.key as usize];
+                        r.waiting_gate = None;
+                        r.waiting_gate_alt = None;
+                    }
+                    w().cover.select_left_waker += 1;
                 }
                 Step::Nested(op) => {
                     if this.inner.is_none() {
